@@ -10,7 +10,7 @@ from harness import core
 from harness.checks import lifelib as L
 
 C09_KINDS = ['plain', 'body', 'form', 'raise', 'nf', 'm405', 'crash', 'json404', 'hdrs', 'badpath', 'badchunk', 'oversize',
-             'badchunk_json', 'oversize_json', 'mutq', 'latin', 'badmp_json']
+             'badchunk_json', 'oversize_json', 'mutq', 'latin', 'badmp_json', 'signed', 'forged', 'stat_s', 'stat_n']
 C09_CONFIG = {'max_body_size': 1000}
 
 
@@ -508,6 +508,15 @@ def run_c10(chk):
                 k2 = rng.choice(['plain', 'body', 'hdrs', 'raise'])
                 reqs.append([(k2, 'T2')])
                 apps.append(a)
+        elif arr == 'listener':
+            # a's handler subscribes to changes of its own request; then b (and the default application) assign request keys
+            other = b
+            seq = [(lambda: L.serve(a, L.environ_for('listen', 'LS'))),
+                   (lambda: L.serve(other, L.environ_for('assign', 'AS'))),
+                   (lambda: L.serve(other, L.environ_for('mutq', 'MQ')))]
+            expect = [solo('listen', 'LS'), solo('assign', 'AS'), solo('mutq', 'MQ')]
+            reqs, apps = [seq], [a]
+            flat = True
         elif arr == 'lazy_drain':
             # the server drains a's streamed body only after b (or the default application) has served a request on the same thread
             other = b if rng.random() < 0.5 else ombott.app
@@ -544,7 +553,7 @@ def run_c10(chk):
             raise core.MachineryError(arr)
         res, tr, taken = L.run_threads(apps, reqs, sched, acc if acc.ok else None)
         ok = []
-        if arr in ('alternate', 'create_between'):
+        if arr in ('alternate', 'create_between', 'listener'):
             ok = [res[0][i] == expect[i] for i in range(len(expect))]
         elif arr == 'lazy_drain':
             got_a, got_mid = res[0][0]
@@ -583,6 +592,7 @@ def run_c10(chk):
         run_arr('alternate', [])
         run_arr('create_between', [])
         run_arr('lazy_drain', [])
+        run_arr('listener', [])
     # arrangements that depend on the class-level closure variable
     for arr in ('nested', 'copy', 'create_inside'):
         for _ in range(6 if thorough else 2):
